@@ -27,6 +27,7 @@ type Engine struct {
 	ufDecls   map[string]string
 	repoDir   string
 	srcLines  map[string][]string
+	kvstrPkgs map[string]bool // ext_kvstr.go
 }
 
 type writeSet struct {
@@ -89,6 +90,7 @@ func loadEngine(repo string, specFiles []string) (*Engine, error) {
 	}
 	sort.Strings(files)
 	files = append(files, specFiles...)
+	contractsRepoDir = strings.TrimSuffix(repo, "/")
 	cs, err := loadContracts(files)
 	if err != nil {
 		return nil, err
